@@ -63,7 +63,7 @@ def run_tests(root):
 
 
 def run_check(root, prop, tier, seed):
-    env = dict(os.environ, VERIF_REPO=root, PYTHONDONTWRITEBYTECODE="1", VERIF_NO_EVIDENCE="1")
+    env = dict(os.environ, VERIF_REPO=root, PYTHONDONTWRITEBYTECODE="1", VERIF_NO_EVIDENCE="1", VERIF_REPLAY_DIR=os.path.join(root, "replays"))
     cmd = [os.path.join(VERIF, "vcheck"), prop, "--tier", tier, "--seed", str(seed)]
     proc = subprocess.run(cmd, cwd=VERIF, env=env, capture_output=True, text=True, timeout=3600)
     first = [ln for ln in proc.stdout.splitlines() if ln.startswith(("VIOLATION", "INCONCLUSIVE", "  monitor"))][:2]
